@@ -192,7 +192,8 @@ func (l heapFieldLV) store(st *State, v Term) {
 	f := &l.si.Fields[l.idx]
 	hn := fieldHeapName(l.si, f)
 	h := l.x.heapGet(st, hn, arraySort(SInt, f.Sort))
-	l.x.writeAt(st, hn, l.ref, false)
+	before := sel(h, l.ref)
+	l.x.writeAtVal(st, hn, l.ref, false, &before, &v)
 	l.x.heapSet(st, hn, store(h, l.ref, v))
 }
 func (l heapFieldLV) typ() types.Type { return l.si.Fields[l.idx].Type }
@@ -278,6 +279,7 @@ func (x *Exec) lvalue(e ast.Expr, st *State) lval {
 		if sel.Kind() != types.FieldVal {
 			break
 		}
+		x.guardCheck(e, st, true)
 		return x.fieldLV(e.X, sel.Index(), st, e.Pos())
 	case *ast.IndexExpr:
 		bt := x.typeOf(e.X)
@@ -288,14 +290,18 @@ func (x *Exec) lvalue(e ast.Expr, st *State) lval {
 			return mapLV{x, m, k, u, e.Pos()}
 		case *types.Slice:
 			// element writes only on slices held in local variables (value semantics, DESIGN.md 3.3)
+			// slices have value semantics (DESIGN.md 3.3): an element write updates the slice value held in
+			// the local variable or in the struct field it is written through; backing arrays shared with
+			// another slice value are not modelled (listed assumption)
 			base := x.lvalue(e.X, st)
-			if _, ok := base.(varLV); !ok {
-				panic(unsupported("element write to a slice that is not a local variable: " + x.exprString(e)))
+			switch base.(type) {
+			case varLV, heapFieldLV:
+			default:
+				panic(unsupported("element write to a slice that is neither a local variable nor a field: " + x.exprString(e)))
 			}
 			i := x.eval(e.Index, st)
 			s := base.load(st)
 			x.safety(st, "index", and(mk(SBool, "<=", intLit(0), i), mk(SBool, "<", i, x.sliceLen(s))), "index "+x.exprString(e), e.Pos())
-			x.noteSliceWrite(base.(varLV).v)
 			return sliceElemLV{x, base, i, u.Elem()}
 		}
 	}
